@@ -301,6 +301,37 @@ impl Gitignore {
     }
 }
 
+/// Removes the insignificant trailing spaces of a gitignore line: the longest
+/// run of spaces at the end of which none is escaped. A backslash escapes
+/// the character following it (including another backslash), just like in
+/// git's own `trim_trailing_spaces`.
+fn trim_trailing_spaces(line: &str) -> &str {
+    let bytes = line.as_bytes();
+    let mut first_trailing_space = None;
+    let mut i = 0;
+    while i < bytes.len() {
+        match bytes[i] {
+            b' ' => {
+                if first_trailing_space.is_none() {
+                    first_trailing_space = Some(i);
+                }
+            }
+            b'\\' => {
+                // Skip whatever is escaped. A dangling backslash is reported
+                // as an error later on.
+                i += 1;
+                first_trailing_space = None;
+            }
+            _ => first_trailing_space = None,
+        }
+        i += 1;
+    }
+    match first_trailing_space {
+        Some(i) => &line[..i],
+        None => line,
+    }
+}
+
 /// Builds a matcher for a single set of globs from a .gitignore file.
 #[derive(Clone, Debug)]
 pub struct GitignoreBuilder {
@@ -444,10 +475,9 @@ impl GitignoreBuilder {
             return Ok(self);
         }
         // As in git, only trailing spaces are insignificant (a trailing tab,
-        // for example, is part of the pattern).
-        if !line.ends_with("\\ ") {
-            line = line.trim_end_matches(' ');
-        }
+        // for example, is part of the pattern), and only those that aren't
+        // escaped with a backslash.
+        line = trim_trailing_spaces(line);
         if line.is_empty() {
             return Ok(self);
         }
